@@ -14,6 +14,11 @@ F32_TOL = 1e-6
 # Shapely's round caps are 32-gons (quad_segs=8): 1 - cos(pi/32) = 0.4815 %.
 ROUND_CAP_SHORTFALL = 0.005
 
+# GEOS simplifies the input of a buffer operation with a tolerance of 1 % of the buffer
+# distance (BufferInputLineSimplifier, simplify factor 0.01); for geometries that are small
+# compared with the buffer this adds up to 1 % to the polygonal-cap shortfall.
+GEOS_BUFFER_SIMPLIFY = 0.011
+
 # Time-shift invariance of affinity (GEOS buffers are not translation exact).
 SHIFT_TOL = 1e-7
 
